@@ -71,3 +71,26 @@ package discovery
 //@   loop 1 invariant[every-record-counted-once] res != nil && msum(res) == idx1 && forall(c, int, in(c, res) ==> res[c] >= 1)
 //@   ensures[status-counts-add-up-to-the-records] result != nil && msum(result) == len(records)
 //@   ensures[fresh] !old(allocated(result))
+
+// One update step: the batch is shown to the trie (ConvergeAggregation) BEFORE its records are keyed (ExtractAggs), with
+// the same trie, and the batch's own statistics are then combined into the converged state.
+//@ ghost var gExtracted bool
+//@ ghost var gCombinedWith Agg
+//@ extern ExtractAggs
+//@   params accessLogs, tree
+//@   requires[the-trie-was-shown-this-batch-first] gTaught && gTaughtTree == tree && len(gTaughtURLs) == len(accessLogs) && forall(i, 0, len(accessLogs), gTaughtURLs[i] == accessLogs[i].URL)
+//@   modifies gExtracted
+//@   ensures gExtracted
+//@ extern CombineAggregation
+//@   modifies nothing
+//@ func GetUpdatedAggregations
+//@   prop C15
+//@   requires forall(k, sharedDiscovery.Endpoint, !cvPrevD[k])
+//@   requires forall(k, sharedDiscovery.Endpoint, in(k, aggregation.Endpoints) ==> aggregation.Endpoints[k].Count >= 0 && (aggregation.Endpoints[k].StatusCodes == nil || allocated(aggregation.Endpoints[k].StatusCodes)))
+//@   requires (aggregation.Endpoints == nil || allocated(aggregation.Endpoints)) && (aggregation.Consumers == nil || allocated(aggregation.Consumers))
+//@   requires forall(c, string, in(c, aggregation.Consumers) ==> aggregation.Consumers[c] == nil || allocated(aggregation.Consumers[c]))
+//@   requires forall(c, string, in(c, aggregation.Consumers) ==> forall(k, sharedDiscovery.Endpoint, in(k, aggregation.Consumers[c]) ==> aggregation.Consumers[c][k].Count >= 0 && (aggregation.Consumers[c][k].StatusCodes == nil || allocated(aggregation.Consumers[c][k].StatusCodes))))
+//@   modifies heap, cvSrc, cvDst, cvPrevD, cvPrevV, gTaught, gTaughtTree, gTaughtURLs, gExtracted
+//@   allocates map
+//@   on entry do gExtracted = false
+//@   ensures[batch-keyed-after-the-trie-saw-it] result1 == nil ==> gExtracted
